@@ -395,9 +395,32 @@ func where() (string, int) {
 	return file, line
 }
 
+//go:noinline
+func whereGeneric[K comparable, V any](k K, v V) (string, int) {
+	_, file, line, _ := runtime.Caller(1)
+	_ = map[K]V{k: v}
+	return file, line
+}
+
+type box[T any] struct{ v T }
+
+//go:noinline
+func (b box[T]) where() (string, int) {
+	_, file, line, _ := runtime.Caller(1)
+	return file, line
+}
+
 func main() {
 	file, line := where()
 	fmt.Printf("caller file=%q line=%d\n", file, line)
+	file, line = whereGeneric[string, int]("a", 1)
+	fmt.Printf("generic2 file=%q line=%d\n", file, line)
+	file, line = whereGeneric("b", 2.5)
+	fmt.Printf("inferred file=%q line=%d\n", file, line)
+	file, line = box[int]{3}.where()
+	fmt.Printf("method file=%q line=%d\n", file, line)
+	file, line = (func() (string, int) { _, f, l, _ := runtime.Caller(1); return f, l })()
+	fmt.Printf("literal file=%q line=%d\n", file, line)
 	pc, _, _, _ := runtime.Caller(0)
 	f, l := runtime.FuncForPC(pc).FileLine(pc)
 	fmt.Printf("funcforpc file=%q line=%d\n", f, l)
@@ -472,7 +495,7 @@ def e2e_part(chk, tier, E, fails):
             bad = [l for l in lines if not re.search(r'file="(\?\?)?" line=(1|0)$', l)]
             st.setdefault("position_queries", 0)
             st["position_queries"] += len(lines)
-            if bad or len(lines) != 3:
+            if bad or len(lines) != 7:
                 fails.append({"why": "a position query in a -tiny binary reports a file name or a line other than 1", "detail": {"flags": gflags, "output": lines}, "key": "tiny-positions"})
         else:
             fails.append({"why": "garble -tiny build of the position program fails", "detail": gp.stderr[-500:], "key": "tiny-pos-build-fails"})
